@@ -299,11 +299,19 @@ func getKDFKey(cryptoJSON cryptoJSON, auth string) ([]byte, error) {
 		return nil, err
 	}
 	dkLen := ensureInt(cryptoJSON.KDFParams["dklen"])
+	if dkLen < 32 {
+		// the derived key is split into a 16-byte cipher key and a 16-byte MAC key
+		return nil, fmt.Errorf("Unsupported KDF dklen: %d", dkLen)
+	}
 
 	if cryptoJSON.KDF == keyHeaderKDF {
 		n := ensureInt(cryptoJSON.KDFParams["n"])
 		r := ensureInt(cryptoJSON.KDFParams["r"])
 		p := ensureInt(cryptoJSON.KDFParams["p"])
+		if r <= 0 || p <= 0 {
+			// x/crypto scrypt divides by r and p before validating them
+			return nil, fmt.Errorf("Invalid scrypt parameters: r=%d p=%d", r, p)
+		}
 		return scrypt.Key(authArray, salt, n, r, p, dkLen)
 
 	} else if cryptoJSON.KDF == "pbkdf2" {
